@@ -36,7 +36,7 @@ fn subcommands(ctx: &Ctx) -> Vec<String> {
 
 pub fn run(ctx: &Ctx) -> Report {
   let mut report = Report::new(
-    "complete enumeration: 5 shells x {--shell, -s, positional, both, none, unknown shell} x {--dir D, -d D, none} on the real binary with a sandbox snapshot; stdout vs file bytes, file names, nothing else written, \
+    "complete enumeration: 5 shells x {--shell, -s, positional, both, none, unknown shell} x {--dir D, -d D, none} x directory state {empty, longer stale scripts under the documented names, shorter ones} on the real binary with a sandbox snapshot; stdout vs file bytes, file names, nothing else written, \
      non-empty script naming every subcommand scraped from `imdl --help` / `imdl torrent --help`; all cases non-trivial; distinct by argument vector",
   );
   report.exhaustive = ctx.replay.is_none();
@@ -77,10 +77,19 @@ pub fn run(ctx: &Ctx) -> Report {
   shell_specs.push((vec!["--shell".into(), "tcsh".into()], Some("tcsh".into()), None));
   shell_specs.push((vec!["nushell".into()], None, Some("nushell".into())));
   for (sargs, flag, pos) in &shell_specs {
-    for dir_flag in [None, Some("--dir"), Some("-d")] {
+    for (dir_flag, pre) in [(None, "empty"), (Some("--dir"), "empty"), (Some("-d"), "empty"), (Some("--dir"), "stale-longer"), (Some("--dir"), "stale-shorter")] {
       let sb = Sandbox::new(&ctx.work, "c19");
       sb.mkdir("out");
       sb.write("bystander", b"keep");
+      // an earlier installation left scripts under the documented names
+      for (_, file) in SHELLS {
+        match pre {
+          "stale-longer" => sb.write(&format!("out/{file}"), "# stale completion script\n".repeat(8000).as_bytes()),
+          "stale-shorter" => sb.write(&format!("out/{file}"), b"# old"),
+          _ => {}
+        }
+      }
+      report.hit(&format!("dir-state:{pre}"));
       let mut args: Vec<String> = vec!["completions".into()];
       args.extend(sargs.iter().cloned());
       if let Some(d) = dir_flag {
@@ -90,7 +99,7 @@ pub fn run(ctx: &Ctx) -> Report {
       let before = snapshot(&sb.root);
       let out = Cmd::args_owned(&ctx.imdl, args.clone()).cwd(&sb.root).run();
       let after = snapshot(&sb.root);
-      let case = json!({"args": args});
+      let case = json!({"args": args, "directory_state": pre});
       report.case(Some(fnv_str(&case.to_string())));
       let new_files: Vec<(String, Vec<u8>)> = after
         .iter()
